@@ -49,9 +49,13 @@ def attribute(ev, cl, tags, trace):
     if kind == "expr" and op in FILL_OPS + ("Pickle", "New"):
         # aggregators whose quantities are string expressions / their equivalent functions: what they aggregate
         # is C17's claim (and C11's for the pickle clone)
-        return {"C17"} | ({"C11"} if op == "Pickle" else set())
+        return {"C17"} | ({"C11"} if op == "Pickle" else set()) | ({"C02"} if op in FILL_OPS else set())
     if cl == "budget":
         return set()
+    if kind == "argshare" and op in FILL_OPS + NEW_OPS and cl != "outcome":
+        # one argument object given to two constructors: whatever goes wrong when one of the containers is filled is
+        # state the constructors failed to separate
+        return {"C06"}
     if cl == "wf":
         return {"C05"}
     opnd = set()
